@@ -63,11 +63,13 @@ def get_keywords(directory: str = "") -> Registry:
     """Get keyword search functions from a directory"""
     directory = directory or os.path.join(next(iter(multidecoder.__path__)), "keywords")
     keyword_map: Registry = []
-    for subdir, _, files in os.walk(directory):
-        for file_name in files:
+    # Directory entries and keywords are sorted so that the order of the results does not depend
+    # on the file system or on the hash seed
+    for subdir, subdirs, files in os.walk(directory):
+        subdirs.sort()
+        for file_name in sorted(files):
             with open(os.path.join(subdir, file_name), "rb") as keyword_file:
-                keywords = set(keyword_file.read().splitlines())
-                keywords.discard(b"")
+                keywords = sorted(set(keyword_file.read().splitlines()) - {b""})
             if not keywords:
                 continue
             keyword_map.append(partial(find_keywords, file_name, keywords))
